@@ -9,7 +9,7 @@ from hypothesis import strategies as st
 from vlib import gen_models as gm
 from vlib import gen_srcmodels as gs
 from vlib.core import Outcome
-from vlib.fnsrc import rates, rates_b
+from vlib.fnsrc import rates, rates_b, rates_c
 from vlib.spec import Ref, build, close, decls_of, var_names
 
 ID = "C11"
@@ -73,6 +73,11 @@ def _case(draw):
             for h in holders:
                 if h["fn"]["name"] in rates_b.ARITY and draw(st.booleans()):
                     h["fn"] = {**h["fn"], "module": "rates_b"}
+                elif h["fn"]["name"] in rates_c.ARITY and draw(st.booleans()):
+                    # same __name__, other arity: one more argument, which the function ignores
+                    avail_names = [d2[1] for d2 in spec["decls"] if d2[0] == "parameter" and "ia" not in d2[2]]
+                    h["fn"] = {**h["fn"], "module": "rates_c", "n": rates_c.ARITY[h["fn"]["name"]]}
+                    h["args"] = [*h["args"], draw(st.sampled_from(avail_names))]
     unt = draw(st.integers(0, 11)) == 0
     if unt:
         for d in spec["decls"]:
